@@ -45,6 +45,7 @@ static size_t intern(uint64_t k) {
 }
 static int key_fresh;                       /* keys=buf */
 static int sparse;                          /* obs=sparse: content is observed only by the `observe` op */
+static int model_off;                       /* model=off: a history too large for the Lean models (they answer `M ?`) */
 static int phys_sum, phys_full;             /* phys=sum: the chains are printed as two checksums, in full only on `observe` */
 #define NSCRATCH 64
 #define NARENA (1 << 15)
@@ -117,7 +118,7 @@ static void conf_from_cmd(Cmd *c, CC_HashTableConf *conf) {
         conf->key_compare = cmp_bytes; conf->key_length = key_len_bytes; }
     else conf->hash = h_id;
     key_fresh = !strcmp(kv_str(c, "keys", "id"), "buf");
-    sparse = !strcmp(kv_str(c, "obs", "full"), "sparse"); phys_sum = !strcmp(kv_str(c, "phys", "full"), "sum");
+    sparse = !strcmp(kv_str(c, "obs", "full"), "sparse"); phys_sum = !strcmp(kv_str(c, "phys", "full"), "sum"); model_off = !strcmp(kv_str(c, "model", "on"), "off");
     conf->mem_alloc = conf_malloc; conf->mem_calloc = conf_calloc; conf->mem_free = conf_free;
 }
 
@@ -127,14 +128,19 @@ static CC_HashTable *ht;
 static CC_Array *darr[NSLOT];
 static int dkind[NSLOT]; /* 1 = keys array (elements are key pointers), 2 = values */
 static CC_HashTableIter it; static int it_valid;
-static uint64_t universe[4096]; static size_t n_univ;
+#define NUNIV (1u << 17)
+static uint64_t universe[NUNIV]; static size_t n_univ;
+static uint64_t univ_tab[NUNIV * 2]; static unsigned char univ_used[NUNIV * 2]; static uint32_t univ_slots[NUNIV];
+
 static unsigned long long ord_log[4096]; static size_t ord_n; static int ord_on;
 static int load_bound_broken; /* C20: size > threshold right after a successful insertion */
 static void eids_reset(void);
-static void shim_reset(void) { eids_reset(); keys_release(); sparse = 0; phys_sum = 0; ht = NULL; for (int i = 0; i < NSLOT; i++) darr[i] = NULL; it_valid = 0; n_univ = 0; }
+static void shim_reset(void) { eids_reset(); keys_release(); sparse = 0; phys_sum = 0; ht = NULL; for (int i = 0; i < NSLOT; i++) darr[i] = NULL; it_valid = 0; model_off = 0; for (size_t i = 0; i < n_univ; i++) univ_used[univ_slots[i]] = 0; n_univ = 0; }
 static void univ_add(uint64_t k) {
-    for (size_t i = 0; i < n_univ; i++) if (universe[i] == k) return;
-    if (n_univ < 4096) universe[n_univ++] = k;
+    size_t j = (size_t)((k * 0x9E3779B97F4A7C15ULL) >> 46) & (NUNIV * 2 - 1);
+    while (univ_used[j]) { if (univ_tab[j] == k) return; j = (j + 1) & (NUNIV * 2 - 1); }
+    if (n_univ >= NUNIV) { fprintf(stderr, "key universe full\n"); exit(3); }
+    univ_used[j] = 1; univ_tab[j] = k; univ_slots[n_univ] = (uint32_t)j; universe[n_univ++] = k;
 }
 static int cmp_u64(const void *a, const void *b) { uint64_t x = *(const uint64_t *)a, y = *(const uint64_t *)b; return x < y ? -1 : x > y; }
 static void cb_key(const void *k) { if (ord_n < 4096) ord_log[ord_n++] = keyval(k); }
@@ -234,7 +240,7 @@ static void o_eid(TableEntry *p) {
 #define SUMSTEP(h, x) ((h) = ((h) ^ (unsigned long long)(x)) * 1099511628211ULL)
 static void o_pentries(CC_HashTable *t) {
     eids_scan(t);
-    if (phys_sum && !phys_full) {
+    if (phys_sum && (!phys_full || model_off)) {
         unsigned long long h = SUM0;
         for (size_t i = 0; i < t->capacity; i++) for (TableEntry *e = t->buckets[i]; e; e = e->next) {
             unsigned long id = 0, nid = 0; eid_of(e, &id);
@@ -253,8 +259,9 @@ static void o_pentries(CC_HashTable *t) {
 static void phys(void) {
     if (ht) {
         o("cap=%zu size=%zu thr=%zu ", ht->capacity, ht->size, ht->threshold);
+        if (model_off && !phys_full) return;  /* chains are walked (checksums, walkers) on `observe` only */
         size_t total = 0;
-        if (phys_sum && !phys_full) {
+        if (phys_sum && (!phys_full || model_off)) {
             unsigned long long h = SUM0;
             for (size_t i = 0; i < ht->capacity; i++) for (TableEntry *e = ht->buckets[i]; e; e = e->next) {
                 SUMSTEP(h, i); SUMSTEP(h, keyval(e->key)); SUMSTEP(h, VAL(e->value)); SUMSTEP(h, e->hash); total++; }
@@ -277,7 +284,7 @@ static void phys(void) {
         for (size_t i = 0; i < ht->capacity; i++) for (TableEntry *e = ht->buckets[i]; e; e = e->next) {
             if ((e->hash & (ht->capacity - 1)) != i) { o(" WALK=entry-in-wrong-bucket"); goto done; }
             if (e->key ? e->hash != ht->hash(e->key, ht->key_len, ht->hash_seed) : (e->hash != 0 || i != 0)) { o(" WALK=cached-hash-stale"); goto done; }
-            if ((!phys_sum || phys_full) && block_size(e) < sizeof(TableEntry)) { o(" WALK=entry-block-too-small"); goto done; }
+            if ((!phys_sum || phys_full) && !model_off && block_size(e) < sizeof(TableEntry)) { o(" WALK=entry-block-too-small"); goto done; }
         }
         done:;
     } else o("-");
